@@ -1,6 +1,7 @@
 package inputroot
 
 import (
+	"bytes"
 	"fmt"
 	"sort"
 	"strings"
@@ -9,6 +10,12 @@ import (
 	"github.com/buildbarn/bb-storage/pkg/filesystem"
 	"github.com/buildbarn/bb-storage/pkg/filesystem/path"
 )
+
+// staleBuffer is a read buffer that already contains something, like the
+// reply buffers of the FUSE and NFS servers do.
+func staleBuffer(n int) []byte {
+	return bytes.Repeat([]byte{'#'}, n)
+}
 
 var closedChannel = func() <-chan struct{} { c := make(chan struct{}); close(c); return c }()
 
@@ -128,7 +135,7 @@ func (r *rig) real(st *step) outcome {
 			return outcome{code: statusCode(s)}
 		}
 		defer leaf.VirtualClose(virtual.ShareMaskRead)
-		buf := make([]byte, st.Len)
+		buf := staleBuffer(st.Len)
 		n, eof, s := leaf.VirtualRead(ctx, buf, uint64(st.Off))
 		if s != virtual.StatusOK {
 			return outcome{code: statusCode(s)}
@@ -463,6 +470,12 @@ func (r *rig) predict(st *step) (outcome, func(got outcome)) {
 		if hi > len(c.data) {
 			hi = len(c.data)
 		}
+		if c.cas && r.badContent[c.content] == "short_file" && hi > lo {
+			// The object lost its tail on a medium that does not
+			// validate: a read that stays inside what is left may
+			// succeed, but only with the right bytes.
+			return outcome{code: "ok-or-io", detail: fmt.Sprintf("%q eof=%v", c.data[lo:hi], st.Off+st.Len >= len(c.data))}, nil
+		}
 		if c.cas && r.badContent[c.content] != "" && hi > lo {
 			return io, nil
 		}
@@ -706,6 +719,8 @@ func matches(got, want outcome) bool {
 		return got.code != "ok" && got.code != "io" && !strings.HasPrefix(got.code, "nav-") && !strings.HasPrefix(got.code, "status(")
 	case "refused-or-ok":
 		return got.code != "io" && !strings.HasPrefix(got.code, "nav-")
+	case "ok-or-io":
+		return got.code == "io" || (got.code == "ok" && got.detail == want.detail)
 	}
 	if got.code != want.code {
 		return false
@@ -759,11 +774,19 @@ func (r *rig) run(st *step) error {
 		st.Res = "repaired"
 		return nil
 	}
+	r.marking = true
+	want, commit := r.predict(st)
+	r.marking = false
 	c.resetFired()
 	got := r.safeReal(st)
 	for attempt := 0; c.firedCount() > 0; attempt++ {
 		if got.code != "io" {
-			return fmt.Errorf("a storage fault fired during %+v, but the operation reported %q instead of an error", *st, got)
+			if c.lastFiredShort && matches(got, want) {
+				// The object was served short and unvalidated,
+				// but this read did not need the lost part.
+				break
+			}
+			return fmt.Errorf("a storage fault fired during %+v, but the operation reported %q instead of an error (the model gives %q)", *st, got, want)
 		}
 		if attempt > 8 {
 			return fmt.Errorf("harness bug: faults keep firing during %+v", *st)
@@ -775,9 +798,6 @@ func (r *rig) run(st *step) error {
 			r.retriedOK++
 		}
 	}
-	r.marking = true
-	want, commit := r.predict(st)
-	r.marking = false
 	if !matches(got, want) {
 		return fmt.Errorf("step %+v: real tree answered\n%s\nbut the requested tree plus local edits gives\n%s\nlogged errors: %q", *st, got, want, r.w.errlog.errs)
 	}
